@@ -1373,6 +1373,35 @@ COMPILER_OPTS = [('c_std', 'combo', 'none', ['c89', 'c99', 'c11', 'c17', 'gnu89'
                  ('c_args', 'array', [], [['-DA1'], ['-DA2'], ['-DA3'], ['-DA4'], ['-DA5'], ['-DA6'], ['-DA7'], ['-DA8']])]
 
 
+# base options that only exist once a compiled language is present (registered late, after the sources were read): boolean
+# options whose documented default is true, so that the value a source gives them is the falsy one (quick tier too)
+LATE_BASE_BOOL = ['b_pch', 'b_staticpic', 'b_asneeded', 'b_lundef']
+
+
+def _latebase_shard(shard: T.Tuple[str, T.List[int], int], ev: Evidence, fails: T.List[Failure]) -> None:
+    name, masks, flip = shard
+    root = os.path.join(_workdir(), 'w')
+    vals = [(i % 2 == 1) != bool(flip) for i in range(8)]          # alternating, starting with False (flip: True)
+    srcvals = {SRC[i]: canon('bool', vals[i]) for i in range(8)}
+    srcvals['default'] = canon('bool', True)
+    group = 'top-order:late-base-option'
+    bucket = Bucket()
+    for mask in masks:
+        sc = sp_cell(name, 'bool', vals, mask)
+        sc['langs'] = ['c']
+        sc['observe_top'] = [[name, 'bool']]
+        if (mask + flip) % 2:
+            sc['defaults_form'] = 'dict'
+        et, wt = fold(TOP_SRC, mask, vals, True)
+        expect = {'top': {name: canon('bool', et)}, 'sp': {}, 'winner': {'top:' + name: wt}}
+        f = check_cell(group, sc, expect, f'last present source of the documented list (command line, machine file, default_options, default): {wt}', root, srcvals)
+        bucket.add(f, popcount(mask))
+        ev.case({'opt': name, 'mask': mask, 'flip': flip}, nontrivial=True, cls=f'{group}:{name}',
+                sample={'opt': name, 'sources': [SRC[i] for i in range(8) if mask >> i & 1], 'expect_top': expect['top'][name]})
+        _clear_leaky_state()
+    bucket.flush(root, ev, fails)
+
+
 def _compiler_shard(shard: T.Tuple[str, str, T.Any, T.List[T.Any], int, T.List[int]], ev: Evidence, fails: T.List[Failure]) -> None:
     name, typ, default, pool, rot, masks = shard
     root = os.path.join(_workdir(), 'w')
@@ -1453,7 +1482,7 @@ def _probe_shard(shard: str, ev: Evidence, fails: T.List[Failure]) -> None:
 SHARD_FUNCS: T.Dict[str, T.Callable[[T.Any, Evidence, T.List[Failure]], None]] = {
     'sp_builtin': _sp_builtin_shard, 'sp_project': _sp_project_shard, 'top': _top_shard, 'derived_bt': _derived_bt_shard,
     'derived_prefix': _derived_prefix_shard, 'validity': _validity_shard, 'permachine': _permachine_shard,
-    'direct': _direct_shard, 'compiler': _compiler_shard, 'probe': _probe_shard,
+    'direct': _direct_shard, 'compiler': _compiler_shard, 'latebase': _latebase_shard, 'probe': _probe_shard,
 }
 
 
@@ -1566,6 +1595,11 @@ def run(ctx: Ctx) -> None:
             shards.append((20 * len(rots), 'direct', ('project', (ptype, variant, rots))))
     for kk in range(5 if thorough else 2):
         shards.append((70, 'direct', ('derived', [(B, D, O, i + kk + ctx.seed + 1) for i, (B, D, O) in enumerate(itertools.product(S, S, S))])))
+    # late-registered base options (both tiers): every subset of the top-level sources
+    top_masks = [m for m in range(256) if m and not (m & ~sum(1 << i for i in TOP_SRC))]
+    for name in LATE_BASE_BOOL:
+        for flip in (0, 1):
+            shards.append((len(top_masks) * 20, 'latebase', (name, top_masks, flip)))
     # compiler options
     if thorough:
         for name, typ, default, pool in COMPILER_OPTS:
